@@ -360,6 +360,35 @@ def check_loaders(A, rep):
             ok = False
             rep.fail("C02.f", norm_key("C02.f", func.qualname, "no-content-read"),
                      f"{func.qualname} can return without reading the resource's content (e.g. a 'nothing changed' shortcut based on metadata): outside rewrites are not seen", g.witness(w or []), g.label)
+        # (h) "None" (= keep the in-memory data) is returned only on a path that witnessed that the resource is missing:
+        # a handler for the backend's "no such key/file" error, the ENOENT arm, or the `is None` arm of a test of what
+        # the backend returned.  An existing but empty / falsy resource is content (or corruption), not absence.
+        file_exits = [x.id for x in live(g) if x.kind == "call_unknown" and x["method"] == "__exit__" and x["args"] and x["args"][0] != Val("const", None)
+                      and x["recv"] is not None and any(y.kind == "call" and y.args[0] == "builtins.open" for y in x["recv"].walk())]
+        wit = [n.id for n in hs if set(n["types"]) <= {"KeyError", "FileNotFoundError", "LookupError"}]
+        for n in live(g):
+            if n.kind != "arm":
+                continue
+            c = g.nodes[n["branch"]]["cond"]
+            neg = False
+            while c.kind == "not":
+                c, neg = c.args[0], not neg
+            if c.kind == "cmp" and len(c.args) == 3:
+                op = c.args[0]
+                if any(x.kind == "ext" and isinstance(x.args[0], str) and x.args[0].endswith("ENOENT") for x in c.walk()) and op in ("==", "!=", "is", "is not"):
+                    if ((op in ("==", "is")) != neg) == n["arm"]:
+                        wit.append(n.id)
+                elif op in ("is", "is not", "==", "!=") and Val("const", None) in (c.args[1], c.args[2]):
+                    if ((op in ("==", "is")) != neg) == n["arm"]:
+                        wit.append(n.id)
+        for n in live(g):
+            if n.kind == "ret" and n["value"] == Val("const", None) and (own(n) or n.func.endswith("._load_from_resource")):
+                w = g.path(g.entry, [n.id], avoid=set(wit) | set(file_exits))
+                if w is not None:
+                    ok = False
+                    rep.fail("C02.h", norm_key("C02.h", func.qualname, "none-without-missing"),
+                             f"{func.qualname} can return None (\"no resource: keep the in-memory data\") on a path that has not established that the resource is missing (e.g. an empty file treated like an absent one): "
+                             "the stale in-memory data is presented as current and saved over the resource by the next write", g.witness(w), g.label)
         # the loader has no memory: it uses only the instance fields that address the resource and stores none -
         # a "same as last time" shortcut (remembered blob / stamp) hides a rewrite that restores earlier content (ABA)
         def vals_of(n):
